@@ -513,7 +513,9 @@ class Interstitial(object):
             for c, d in itertools.product(range(self.dim), repeat=2):
                 Dp[:, :, c, d] += np.tensordot(gamma_i, biasP_i[:, :, c, d], ((0), (0))) + \
                                   np.tensordot(biasP_i[:, :, c, d], gamma_i, ((0), (0)))
-            Dp += np.tensordot(np.tensordot(self.VV, gamma_v, ((3), (0))), dg, ((2), (0)))
+            # gamma.(dOmega/d eps).gamma with the full site-resolved dOmega: projecting dOmega.gamma onto the symmetric
+            # vector basis first would discard its symmetry-breaking part
+            Dp += np.einsum('ijcd,jx,iy->xycd', domega_ij, gamma_i, gamma_i)
 
         for a, b, c, d in itertools.product(range(self.dim), repeat=4):
             if a == c:
